@@ -22,6 +22,7 @@ typedef struct ref_tval {
     int elem_type, key_type;  /* list/set: elem_type; map: key_type + elem_type (value type) */
     struct ref_tval* items; int nitems;   /* list/set elements; map: k,v,k,v..; struct: field values */
     int16_t* fids;            /* struct: field id of items[i] */
+    bool has_lie; uint64_t lie; /* hostile-input generation: write this count/length instead of the true one */
 } ref_tval;
 
 typedef struct { bool long_field_headers, long_list_headers; } ref_tform;
